@@ -255,6 +255,9 @@ C18_SPECIAL = [
     ("s3.c", "#if {M}({N}, 7)\n# define {K}({a}) {a}##{a}\n#elif {N}\n# define {K}({b}) #{b}\n#endif\n\nint\t{c}(void)\n{\n\treturn ({K}(1));\n}\n"),
     # operands of seven letters in conditions (room for every spelling the tool might treat specially by mistake: DEFINED, INCLUDE, ...)
     ("s5.c", "#if {L} && {M}\n# define {N} 1\n#elif {L} == 1\n# define {N} 2\n#elif {L}({M}, 1)\n# define {N} 3\n#endif\n#ifdef {L}\n# undef {L}\n#endif\n\nint\t{c}(void)\n{\n\treturn ({N});\n}\n"),
+    # array dimensions named by macros, at every declaration site (global, struct member, local, parameter): the tool decides
+    # "macro constant or variable-length array" from the SPELLING of the dimension's identifier
+    ("s6.c", "#define {M} 42\n#define {N} 8\n\nchar\tg_buf[{M}];\n\ntypedef struct s_{a}\n{\n\tchar\t{b}[{M}];\n\tint\t{c}[2 * {N}];\n}\tt_{a};\n\nint\t{c}(char argv[{N}])\n{\n\tchar\t{a}[{M}];\n\tint\t{b}[{N} + 1];\n\n\t{a}[0] = {b}[0] + argv[0];\n\treturn ({a}[{M} - 1]);\n}\n"),
     ("s4.h", "#ifndef S4_H\n# define S4_H\n\n# ifdef {M}\n#  define {K}({a}, {b}) {a} ## {b}\n# endif\n\ntypedef struct s_{a}\n{\n\tint\t{b};\n}\tt_{a};\n\n#endif\n"),
 ]
 
